@@ -330,7 +330,8 @@ def run_check(mod, tier="quick", seed=0, replay=None):
         log(f"[{pid}] translator failed (cannot import the working tree):\n{err[-2000:]}")
         return 2
     log(f"[{pid}] extract: {summary['machines']} machines, {summary['transitions']} transitions, changed={summary['changed']}")
-    pr = prove(pid, mod.PROP_MODULES, native_ok=tuple(getattr(mod, "NATIVE_DECIDE_MODULES", ())))
+    pr = prove(pid, mod.PROP_MODULES, extra_targets=tuple(["wvdriver"] + list(getattr(mod, "EXTRA_TARGETS", ()))),
+               native_ok=tuple(getattr(mod, "NATIVE_DECIDE_MODULES", ())))
     log(f"[{pid}] prove: build_ok={pr['build_ok']} driver_ok={pr['driver_ok']} theorems={len(pr['theorems'])} "
         f"forbidden={len(pr['forbidden'])} bad_axioms={len(pr['bad_axioms'])}")
     if not pr["ok"]:
